@@ -150,7 +150,7 @@ def check_annotations(tree, e, lang, spec, ops):
 
 def run(ctx):
     rng = ctx.rng
-    nlang = 6 if ctx.tier == "quick" else 40
+    nlang = 10 if ctx.tier == "quick" else 50
     for li in range(nlang):
         spec = G.gen_lang(rng, max_base=6, max_ops=2, max_arity=2)
         ops = spec.build()
@@ -179,6 +179,53 @@ def run(ctx):
         for tree, text in cases:
             one_case(ctx, li, spec, ops, lang, operators, tree, text, ninputs, opdecls)
         rejection_family(ctx, li, spec, ops)
+        bounds_family(ctx, li)
+
+
+def bounds_family(ctx, li):
+    """higher-order polymorphic operators whose variable collects a lower AND an upper bound before it meets another variable:
+    h : x ** (x ** K) ** (x ** K2) ** E applied to typed sources, monomorphic functions g : T ** K and partial applications w (- : T) of w : y ** y ** K"""
+    rng = ctx.rng
+    depth = rng.randint(2, 4)
+    decls = list(G.BUILTIN_DECLS)
+    chain = []
+    for i in range(depth):
+        decls.append((G.BASE_NAMES[i], [], (5 + i - 1) if i else None))
+        chain.append(5 + i)
+    extra = []
+    for j in range(3):
+        decls.append((G.BASE_NAMES[6 + j], [], None))
+        extra.append(5 + depth + j)
+    spec = G.LangSpec(decls)
+    ops = spec.build()
+    x, y = ('v', 0), ('v', 1)
+    K1, K2, E = [(e, ()) for e in extra]
+    nfun = rng.randint(1, 3)
+    hparams = [x] + [X.fun(x, rng.choice([K1, K2])) for _ in range(nfun)]
+    rng.shuffle(hparams)
+    opdecls = [("h", {"nvars": 1, "nwild": 0, "body": X.fun(*hparams, rng.choice([E, x])), "constraints": []})]
+    for K, nm in ((K1, "1"), (K2, "2")):
+        opdecls.append(("w" + nm, {"nvars": 1, "nwild": 0, "body": X.fun(x, x, K), "constraints": []}))
+        for t in chain:
+            opdecls.append((f"g{nm}{spec.name(t)}", {"nvars": 0, "nwild": 0, "body": X.fun((t, ()), K), "constraints": []}))
+    lang, operators = X.build_typed_language(spec, ops, opdecls)
+    ctx.setup(spec.sexp(), "ok T")
+    ctx.setup("(aliases)", "ok")
+    ctx.setup(X.operators_line(opdecls), "ok")
+    for _ in range(40 if ctx.tier == "quick" else 150):
+        parts = ["h"]
+        for p in hparams:
+            if I.is_var(p):
+                parts.append(f"(- : {spec.name(rng.choice(chain))})")
+            else:
+                nm = "1" if p[1][1] == K1 else "2"
+                if rng.random() < 0.5:
+                    parts.append(f"g{nm}{spec.name(rng.choice(chain))}")
+                else:
+                    parts.append(f"(w{nm} (- : {spec.name(rng.choice(chain))}))")
+        text = " ".join(parts)
+        one_case(ctx, li, spec, ops, lang, operators, None, text, 0, opdecls)
+        ctx.count("bounds_family")
 
 
 def one_case(ctx, li, spec, ops, lang, operators, tree, text, ninputs, opdecls):
